@@ -6,10 +6,11 @@
    sequences accepted from the initial state (all interleavings of client and worker steps,
    all answers of select/recv, any number of in-flight requests).
    PARTIAL by nature (DESIGN 5 C12, 8): what the kernel, epoll, OpenSSL and paramiko do when a
-   handle is closed enters as the oracle hypotheses O1-O5 stated at the top of Model/Close.v
+   handle is closed enters as the oracle hypotheses O1-O6 stated at the top of Model/Close.v
    (built into [step]: no Axiom, no Parameter); tools/props/c12.py validates them on real
    Unix/TLS/SSH connections. *)
 From NC Require Import Model.Base Model.Close Spec.CloseSpec Proofs.CloseProofs Proofs.CloseThms Proofs.CloseSsh.
+From NC Require Import Proofs.CloseWake.
 
 (* after close() returned to a client thread the session reports itself disconnected *)
 Theorem C12_disconnected : forall t ls s,
@@ -48,11 +49,65 @@ Theorem C12_worker_exits_bound : forall t ls0 s ls s',
 Proof. exact c12_worker_exits_bound. Qed.
 Print Assumptions C12_worker_exits_bound.
 
-(* ... while never being stuck: until it has ended one of its own steps is enabled. *)
+(* ... while never being stuck: until it has ended one of its own steps is enabled - with ONE
+   exception: asleep inside a transport read (WBlocked: select reported the handle readable, recv
+   has nothing to return, the peer is silent) on a handle that is still open. *)
 Theorem C12_worker_progress : forall s,
-  not_alive (worker s) = false -> exists l, is_worker_label l = true /\ step s l <> None.
+  not_alive (worker s) = false ->
+  (worker s = WBlocked /\ socket_open s = true) \/
+  exists l, is_worker_label l = true /\ step s l <> None.
 Proof. exact c12_worker_progress. Qed.
 Print Assumptions C12_worker_progress.
+
+(* In that state NO step of the worker is enabled: the closing flag (or anything else short of
+   shutting the handle down) does not end the read ... *)
+Theorem C12_blocked_read_needs_wakeup : forall s,
+  worker s = WBlocked -> socket_open s = true ->
+  forall l, is_worker_label l = true -> step s l = None.
+Proof. exact c12_blocked_needs_wakeup. Qed.
+Print Assumptions C12_blocked_read_needs_wakeup.
+
+(* ... and - oracle hypothesis (O6), the wake-up by shutdown()/close() of the handle, named here -
+   once the handle is closed locally that read returns, without data, and cannot go back to sleep;
+   so a locally closed session's worker is never stuck ... *)
+Theorem C12_blocked_read_woken : forall s,
+  worker s = WBlocked -> socket_open s = false ->
+  step s (Read RErr) = Some (w_worker s WRaised) /\
+  (is_ssh (tr s) = false -> step s (Read REof) = Some (w_worker s WAfterEof)) /\
+  (forall n, step s (Read (RData n)) = None) /\
+  step s Block = None /\ step s Unblock = None.
+Proof. exact c12_blocked_woken. Qed.
+Print Assumptions C12_blocked_read_woken.
+
+Theorem C12_worker_progress_closed : forall s,
+  not_alive (worker s) = false -> socket_open s = false ->
+  exists l, is_worker_label l = true /\ step s l <> None.
+Proof. exact c12_worker_progress_closed. Qed.
+Print Assumptions C12_worker_progress_closed.
+
+(* ... and close() RETURNS on every transport, whatever the worker is doing when it is called
+   (C12_worker_exits_bound above bounds the worker's steps from WBlocked too: wfuel WBlocked = 12):
+   a client thread anywhere inside close() can be brought to the return of close() by steps of that
+   thread and of the worker alone - no step of the peer or of any other thread - and then the
+   session is released. *)
+Theorem C12_close_returns : forall t ls0 s rest,
+  run_of t ls0 s -> cprog s = Some rest ->
+  exists ls s', accepts s ls = Some s' /\ In (CloseRet Client) ls /\
+    (forall l, In l ls -> is_worker_label l = true \/ l = CloseRet Client \/ exists c d, l = CStep Client c d) /\
+    client_closed s' = true /\ not_alive (worker s') = true /\ connected s' = false /\ socket_open s' = false.
+Proof. exact c12_close_returns. Qed.
+Print Assumptions C12_close_returns.
+
+(* In particular with the worker asleep inside a read when close() is called: nothing the worker
+   can do by itself, and yet close() completes (the CloseHandle statement wakes the read: O6). *)
+Theorem C12_close_wakes_blocked_read : forall t ls0 s,
+  run_of t ls0 s -> ph s = PUp -> cprog s = None -> worker s = WBlocked -> socket_open s = true ->
+  (forall l, is_worker_label l = true -> step s l = None) /\
+  exists ls s', accepts s (CloseCall :: ls) = Some s' /\ In (CloseRet Client) ls /\
+    (forall l, In l ls -> is_worker_label l = true \/ l = CloseRet Client \/ exists c d, l = CStep Client c d) /\
+    client_closed s' = true /\ worker s' = WExited /\ connected s' = false /\ socket_open s' = false.
+Proof. exact c12_close_wakes_blocked_read. Qed.
+Print Assumptions C12_close_wakes_blocked_read.
 
 (* no worker step - in particular no listener invocation - after close() returned (the join) *)
 Theorem C12_no_late_callback : forall t ls1 ls2 s,
@@ -266,3 +321,34 @@ Definition ex_late : list label :=
 Example C12_residual_late_request : let s := st_of Unix ex_late in
   run_of Unix ex_late s /\ late s = [7] /\ pending s = [] /\ failed s = [].
 Proof. ex. Qed.
+
+(* TLS, the peer put a truncated record on the wire: select reports the socket readable, the read
+   sleeps (Block).  Setting the closing flag enables nothing for the worker; the join cannot be passed;
+   after CloseHandle (shutdown + close) the read returns b'' / an error (O6) and the worker ends within
+   wfuel WBlocked = 12 steps, the in-flight request is failed, close() returns.  Had the peer completed
+   the record instead (Unblock) the read would have gone on; after the local close it cannot. *)
+Definition ex_blocked_prefix : list label :=
+  [OpenHandle; SetConn; Start; SelectBegin; Select true; ReadBegin; Read (RData 1); Dispatch None; HelloOk;
+   Submit 1 true; SelectBegin; Select true; ReadBegin; Block;
+   CloseCall; CStep Client SetClosing true].
+Definition ex_blocked_rest : list label :=
+  [CStep Client CloseHandle true; CStep Client ClearConn true;
+   Read REof; ChkClosing true; ErrBroadcast; Exit; CStep Client JoinW true; CloseRet Client].
+Example C12_ex_blocked_read : let s := st_of Tls ex_blocked_prefix in
+  run_of Tls ex_blocked_prefix s /\ worker s = WBlocked /\ closing s = true /\ socket_open s = true /\
+  step s (Read REof) = None /\ step s (Read RErr) = None /\ step s (ChkClosing true) = None /\
+  step s (CStep Client JoinW true) = None /\
+  step s Unblock = Some (w_worker s (WReading true)) /\
+  (let s' := st_of Tls (ex_blocked_prefix ++ ex_blocked_rest) in
+   run_of Tls (ex_blocked_prefix ++ ex_blocked_rest) s' /\ worker s' = WExited /\ client_closed s' = true /\
+   connected s' = false /\ socket_open s' = false /\ pending s' = [] /\ failed s' = [1%N] /\
+   sel_after_close s' = 0%N) /\
+  (let s1 := st_of Tls (ex_blocked_prefix ++ [CStep Client CloseHandle true]) in
+   worker s1 = WBlocked /\ wfuel (worker s1) = 12%nat /\ step s1 Unblock = None /\
+   step s1 (Read (RData 1)) = None /\ step s1 (Read RErr) <> None) /\
+  accepts (init Unix) (ex_blocked_prefix ++ ex_blocked_rest) <> None /\
+  count is_worker_label ex_blocked_rest = 4%nat.
+Proof.
+  intro s; repeat match goal with |- _ /\ _ => split | |- let _ := _ in _ => intro end;
+    first [ vm_compute; reflexivity | vm_compute; discriminate ].
+Qed.
